@@ -199,7 +199,46 @@ func MetadataName(name string) string {
 		// metadata.
 		return "!" + `\3` + name[:1] + string(Escape([]byte(name[1:]), valid))
 	}
+	if specializedNodeNames[name] {
+		// Escape first character if the name is spelled like a specialized
+		// metadata node (e.g. "DIFile"), to distinguish the metadata name from
+		// the `!DIFile` keyword.
+		return "!" + fmt.Sprintf(`\%02X`, name[0]) + name[1:]
+	}
 	return "!" + string(Escape([]byte(name), valid))
+}
+
+// specializedNodeNames is the set of names of specialized metadata nodes.
+var specializedNodeNames = map[string]bool{
+	"DIArgList":                  true,
+	"DIBasicType":                true,
+	"DICommonBlock":              true,
+	"DICompileUnit":              true,
+	"DICompositeType":            true,
+	"DIDerivedType":              true,
+	"DIEnumerator":               true,
+	"DIExpression":               true,
+	"DIFile":                     true,
+	"DIGlobalVariable":           true,
+	"DIGlobalVariableExpression": true,
+	"DIImportedEntity":           true,
+	"DILabel":                    true,
+	"DILexicalBlock":             true,
+	"DILexicalBlockFile":         true,
+	"DILocalVariable":            true,
+	"DILocation":                 true,
+	"DIMacro":                    true,
+	"DIMacroFile":                true,
+	"DIModule":                   true,
+	"DINamespace":                true,
+	"DIObjCProperty":             true,
+	"DIStringType":               true,
+	"DISubprogram":               true,
+	"DISubrange":                 true,
+	"DISubroutineType":           true,
+	"DITemplateTypeParameter":    true,
+	"DITemplateValueParameter":   true,
+	"GenericDINode":              true,
 }
 
 // MetadataID encodes a metadata ID to its LLVM IR assembly representation.
